@@ -106,7 +106,12 @@ def run(ctx):
         open(spec, "w").write(rp["case"].get("spec", "") + "\n")
         rc, out = sh([explorer, ops, cunit, "--spec", spec], env=ctx.env, timeout=3000)
     else:
-        rc, out = sh([explorer, ops, cunit], env=ctx.env, timeout=3000)
+        import subprocess
+        try:
+            rc, out = sh([explorer, ops, cunit], env=ctx.env, timeout=900 if ctx.tier == "thorough" else 240)
+        except subprocess.TimeoutExpired:
+            rc, out = 124, "explorer timed out (a history does not terminate)"
+            sh("pkill -9 -f '%s'" % ops)
     ctx.log(out.strip().split("\n")[-1] if out.strip() else "explorer silent")
     if rc != 0:
         # a crash of the explorer IS the property failing (segfault / abort / assertion): find the history
@@ -116,7 +121,7 @@ def run(ctx):
                 if line.startswith("spec "):
                     last = line.rstrip("\n").split(" ", 2)[2]
         ctx.oblige("run:explorer", False, out[-800:])
-        ctx.violation("judge", "the explorer process died (signal/abort) — the last completed history was `%s`; the next one in the seed's list crashes the library" % last,
+        ctx.violation("judge", "the explorer process died or hung (signal/abort/timeout) in history `%s`" % last,
                       {"case": "crash", "spec": last, "output": out[-2000:]}, fingerprint={"clause": "crash"})
         return ctx.finish()
     specs = {}
